@@ -17,6 +17,8 @@ import ClipVerif.Model.AreaOP
 import ClipVerif.Model.Contain
 import ClipVerif.Model.AelOrder
 import ClipVerif.Model.OffsetGeom
+import ClipVerif.Model.Split
+import ClipVerif.Model.BuildPaths
 /-
 Correspondence side of the line protocol: `model <name> …` evaluates a hand model, `gen <fn> …`
 evaluates a generated function; both print the result in a canonical form that the harness
@@ -109,6 +111,22 @@ def model (name : String) (ts : Toks) : String :=
       let cfg : Model.OffCfg := { groupDelta := f dbits, joinType := jt.toNat, mitLimSqr := Model.mitLimSqrOf (f mbits) }
       showPath (Model.offsetPolygon cfg (toP64 p).toArray)
     | _ => "parse-error"
+  | "buildpaths", preserve :: rev :: rest =>
+    match takePaths rest with
+    | some (ps, []) =>
+      match Model.buildPaths (preserve != 0) (rev != 0) (ps.map toP64) with
+      | none => "skip"
+      | some out => String.intercalate " ; " (out.map showPath)
+    | _ => "parse-error"
+  | "split", rest =>
+    match takePath rest with
+    | some (p, []) =>
+      match Model.fixSelfIntersects (toP64 p) with
+      | none => "skip"
+      | some (main, news) =>
+        let m := match main with | some r => showPath r | none => "dropped"
+        s!"{m} | {String.intercalate " ; " (news.map showPath)}"
+    | _ => "parse-error"
   | "contain", rest =>
     match takePath rest with
     | some (p1, rest) => match takePath rest with
@@ -170,13 +188,10 @@ def model (name : String) (ts : Toks) : String :=
   | "clean", preserve :: rest =>
     match takePath rest with
     | some (p, []) =>
-      let r := Model.cleanCollinearLoop (preserve != 0) (toP64 p)
-      let ring := r.1.rotateLeft r.2       -- the ring read from outrec.pts
-      let n := ring.length
-      -- `fixSelfIntersects` (not modelled) acts when two next-but-one edges cross: no comparison then
-      let crossing := n ≥ 4 && (List.range n).any fun i =>
-        segsIntersect ring[(i + n - 1) % n]! ring[i]! ring[(i + 1) % n]! ring[(i + 2) % n]! false
-      if crossing then "skip" else showPath ring
+      -- the whole `cleanCollinear`: removal loop, then the self-intersection repair
+      match Model.cleanCollinear (preserve != 0) (toP64 p) with
+      | none => "skip"
+      | some (main, news) => s!"{showPath (main.getD [])} {news.length + 1}"
     | _ => "parse-error"
   | "build", rev :: isOpen :: rest =>
     match takePath rest with
